@@ -520,7 +520,7 @@ func (f *FavRaw) AddFolder() (favType *FavType, err error) {
 		return nil, ErrTooManyFavs
 	}
 
-	if f.NLines >= MAX_FOLDER {
+	if f.NFolders >= MAX_FOLDER {
 		return nil, ErrTooManyFolders
 	}
 
